@@ -15,11 +15,13 @@ import (
 	"os"
 	"strings"
 	"sync"
+	"sync/atomic"
 	"time"
 
 	"github.com/brutella/hc/accessory"
 	"github.com/brutella/hc/characteristic"
 	"github.com/brutella/hc/service"
+	"github.com/brutella/hc/verifhook"
 
 	"verif/harness/app"
 	"verif/refctl"
@@ -505,6 +507,24 @@ func main() {
 		}
 		cfgs = append(cfgs, c)
 	}
+	// a slow accessory: short pauses at the hook points of the connection's write and read paths (between "M4 is on the
+	// wire" and "the keys are active for the other direction", between sealing and writing, on entering a read), so that
+	// the controller's next message arrives inside windows it would otherwise arrive after.  A conformant controller
+	// must be served whatever the accessory's own pace.
+	var hookCalls [5]int64
+	points := map[string]int{"conn.write.enter": 0, "conn.write.sealed": 1, "conn.write.written": 2, "conn.write.done": 3, "conn.read.enter": 4}
+	periods := [5]int64{11, 7, 3, 5, 13}
+	pauses := [5]time.Duration{500 * time.Microsecond, time.Millisecond, 2 * time.Millisecond, time.Millisecond, 300 * time.Microsecond}
+	var paused [5]int64
+	verifhook.Install(func(point string) {
+		if i, ok := points[point]; ok {
+			if atomic.AddInt64(&hookCalls[i], 1)%periods[i] == 0 {
+				atomic.AddInt64(&paused[i], 1)
+				time.Sleep(pauses[i])
+			}
+		}
+	})
+	defer verifhook.Install(func(string) {})
 	var wg sync.WaitGroup
 	ch := make(chan config)
 	for w := 0; w < 12; w++ {
@@ -528,6 +548,10 @@ func main() {
 	close(ch)
 	wg.Wait()
 	_ = ed25519.PublicKeySize
+	for p, i := range points {
+		r.Count("pauses_at_"+p, int(atomic.LoadInt64(&paused[i])))
+		r.Floor("pauses_at_"+p, int(atomic.LoadInt64(&paused[i])), n)
+	}
 	r.Floor("configurations_completed", int(r.Counter("configurations_completed")), n*9/10)
 	r.Floor("pairs_of_controllers_paired_at_the_same_time+violations", int(r.Counter("pairs_of_controllers_paired_at_the_same_time"))+r.ViolationCount(), n/6)
 	r.Floor("right_code_after_wrong_code_on_the_same_connection+violations", int(r.Counter("right_code_after_wrong_code_on_the_same_connection"))+r.ViolationCount(), n/5)
